@@ -712,19 +712,19 @@ func c30BuildEnv(seeds []c30Seed, thorough bool, nCands int) *c30Env {
 	}
 	e.nSingles = e.nSDP
 	if thorough {
-		// all pairs of deviations (without the token operators) of the four smallest seeds; pairs of
-		// the structural deviations (delete a line, delete / rename a family) of the other seeds,
-		// for the two fixtures also with the value replacements on ssrc / ssrc-group / rid /
-		// simulcast / msid / mid lines
+		// all pairs of deviations (without the token replacement operators) of the two smallest
+		// seeds; pairs of the structural deviations (delete a line, delete / rename a family) of the
+		// other seeds, for the two fixtures and the seeds of <= 30 lines also with the value
+		// replacements on ssrc / ssrc-group / rid / simulcast / msid / mid lines
 		for si := range seeds {
 			s := &seeds[si]
 			lines := c30Lines(s.SDP)
 			devs := c30Devs(lines, false)
-			if si >= 4 {
+			if si >= 2 {
 				var st []c30Dev
 				for _, d := range devs {
 					trackLine := false
-					if d.Op == "val" && strings.HasPrefix(s.Name, "fix-") {
+					if d.Op == "val" && (strings.HasPrefix(s.Name, "fix-") || len(lines) <= 30) {
 						switch c30LineKind(lines[d.I]) {
 						case "ssrc", "ssrc-group", "rid", "simulcast", "msid", "mid":
 							trackLine = true
@@ -1817,6 +1817,12 @@ func TestVerifC30(t *testing.T) { //nolint:cyclop
 	sort.Slice(resList, func(i, j int) bool { return resList[i].idx < resList[j].idx })
 	sort.Slice(crashList, func(i, j int) bool { return crashList[i].idx < crashList[j].idx })
 	samples := 0
+	if len(resList) > 0 {
+		cs := p.env.caseMeta(resList[len(resList)/40].idx)
+		if cs.Part == "cand" {
+			c.Sample(c30Describe(cs) + " -> " + resList[len(resList)/40].outcome)
+		}
+	}
 	for _, r := range resList {
 		cs := p.env.caseMeta(r.idx)
 		if strings.HasPrefix(r.outcome, "PANIC ") {
